@@ -6,6 +6,13 @@
   as multisets of (key, value); the cause of a reported value is `Expiration` iff its deadline had
   passed, else what happened; values still present are never reported.  The SEQ judge additionally
   demands that the OnDeletion stream equals the atomic stream event for event (key, value, cause).
+
+  Concurrent departures (Props.C06Conc over Conc.Events, every interleaving of writers, invalidations, evictions and task executions in any
+  order): OnDeletion and OnAtomicDeletion each report a node at most once; OnDeletion only what OnAtomicDeletion reported;
+  nothing that is still installed and nothing that was never installed; while a departure is unreported exactly one pending
+  task carries it; at quiescence every departed node has been reported exactly once by both.  The model's steps are tied to
+  cache_impl.go by twelve skeleton equalities (who calls notifyDeletion / notifyAtomicDeletion / getTask, with which
+  arguments, under which branch) and by CONC-events on the real cache.
 -/
 import OtterVerif.Proofs.MapLemmas
 
@@ -154,6 +161,7 @@ theorem c06_wf_evict (c : Cfg) (s s' : State) (ev : Event) (h : WF s.m) (he : ev
 
 theorem c06_wf_touch (c : Cfg) (s : State) (k : Nat) (e : Entry) (h : WF s.m) : WF (touch c s k e).m := by
   unfold touch; exact WF_put _ _ _ h
+
 
 /-! ### Non-vacuity -/
 def e1 : Entry := { val := 7, weight := 1, exp := 50, ref := maxI64 }
